@@ -76,6 +76,9 @@ func threeSeries(w *world, rep *vevid.Report) {
 		{"host not in ('b')", [3]bool{true, false, true}},
 		{"host='c'", [3]bool{false, false, true}},
 		{"host='b'", [3]bool{false, true, false}},
+		// one tag filter twice in a condition (each occurrence is evaluated on its own)
+		{"(host='a' or host='b') and (host='a' or host='c')", [3]bool{true, false, false}},
+		{"(host in ('a','b') and host!='b') or (host in ('a','b') and host!='a')", [3]bool{true, true, false}},
 	}
 	for p1 := 0; p1 < 8; p1++ { // bit i: the first write of series i goes into the next family
 		for _, mid := range []string{"", "F", "R"} {
